@@ -9,6 +9,7 @@ export const id = 'C04';
 export const SPELLINGS = [
   ['v-foo', 'foo'], ['v-multi-word', 'multi-word'], ['vBar', 'bar'], ['vCamelMultiWord', 'camelMultiWord'],
   ['v-Upper', 'upper'], ['vX', 'x'], ['v-show', 'show'], ['vShow', 'show'], ['v-a1', 'a1'], ['vHTMLish', 'hTMLish'],
+  ['v-visible', 'visible'], ['vValidate', 'validate'], ['v-vv-dir', 'vv-dir'], ['v-v', 'v'], ['v--dash', '-dash'],
 ];
 export const SUFFIXES = [[], ['m1'], ['m1', 'm2'], ['zeta', 'alpha']];
 export const NSARGS = [null, 'arg1', 'argCamel'];
